@@ -134,6 +134,20 @@ ShapeDef(i) ==
                   @@ A("S1", 8, 1) :> Fm(CallN("IF", <<BoolLit(TRUE), Rng("", 1, 1, 1, 2)>>))
                   @@ A("S1", 9, 1) :> Fm(Bin("&", RelRef(8, 2), StrLit(<<120>>))) ),
          names |-> <<>>, inputs |-> {A("S1", 1, 1), A("S1", 1, 2)}]
+    [] i = "wholerow" ->     \* whole-row references over rows that hold formula cells
+        [cells |-> ( A("S1", 1, 1) :> Kc(1) @@ A("S1", 2, 1) :> Fm(Bin("*", RelRef(1, 1), N2)) @@ A("S1", 3, 1) :> Fm(Bin("+", RelRef(2, 1), N10))
+                  @@ A("S1", 1, 2) :> Kc(1) @@ A("S1", 2, 2) :> Fm(Bin("+", RelRef(1, 2), RelRef(3, 1)))
+                  @@ A("S1", 1, 4) :> Fm(CallN("SUM", <<Rows("", 1, 1)>>))
+                  @@ A("S1", 2, 4) :> Fm(CallN("COUNTA", <<Rows("", 1, 2)>>))
+                  @@ A("S1", 3, 4) :> Fm(Bin("+", CallN("SUM", <<Rows("", 2, 2)>>), RelRef(1, 4))) ),
+         names |-> <<>>, inputs |-> {A("S1", 1, 1), A("S1", 1, 2)}]
+    [] i = "numstate" ->     \* a call that ends in an error inside a numerical library, next to one that relies on its defaults
+        [cells |-> ( A("S1", 1, 1) :> Kc(1)
+                  @@ A("S1", 3, 1) :> Kc(10) @@ A("S1", 3, 2) :> Kc(20)
+                  @@ A("S1", 4, 1) :> Kc(43831) @@ A("S1", 4, 2) :> Kc(44197)
+                  @@ A("S1", 2, 1) :> Fm(CallN("XIRR", <<Rng("", 3, 1, 3, 2), Rng("", 4, 1, 4, 2)>>))
+                  @@ A("S1", 7, 1) :> Fm(CallN("PV", <<NumLit(<<48>>), N2, Bin("-", NumLit(<<48>>), RelRef(1, 1))>>)) ),
+         names |-> <<>>, inputs |-> {A("S1", 1, 1)}]
     [] i = "cross" ->
         [cells |-> ( A("S1", 1, 1) :> Kc(1) @@ A("S 2", 1, 1) :> Kc(1)
                   @@ A("S 2", 2, 1) :> Fm(Bin("*", RelRef(1, 1), N3))
@@ -166,6 +180,7 @@ RefsOfArgs(xs, sh) == IF Len(xs) = 0 THEN {} ELSE RefsOf(xs[1], sh) \cup RefsOfA
 RefsOf(a, sh) ==
     CASE a.k = "ref"   -> {<<IF a.sheet = "" THEN sh ELSE a.sheet, a.col, a.row>>}
       [] a.k = "range" -> {<<IF a.sheet = "" THEN sh ELSE a.sheet, c, r>> : c \in a.c1..a.c2, r \in a.r1..a.r2}
+      [] a.k = "rows"  -> {k \in Cells : k[1] = (IF a.sheet = "" THEN sh ELSE a.sheet) /\ k[3] >= a.r1 /\ k[3] <= a.r2}
       [] a.k = "name"  -> IF a.v \in Names THEN RefsOf(ShapeDef(shape).names[a.v], sh) ELSE {}
       [] a.k = "bin"   -> RefsOf(a.l, sh) \cup RefsOf(a.r, sh)
       [] a.k \in {"neg", "pct", "paren"} -> RefsOf(a.x, sh)
